@@ -18,8 +18,10 @@ import (
 //	                 ByLineName - sort.Slice with comparator "line differs ? line< : name<" (directly or
 //	                              through one package-level helper with that body)
 //	                 OrderUnknown - anything else
-//	postgres.go    writeModifySQLForAColumn: does the branch "new and old are both references" emit anything
-//	               (RefRefSilent / RefRefRetarget / RefRefUnknown)
+//	postgres.go    writeModifySQLForAColumn: what the branch "new and old are both references" emits
+//	               (RefRefSilent / RefRefRetarget), and whether a retained autoincrement column is recorded as
+//	               bigint for the columns that refer to it (AutoVtPlain / AutoVtBigint);
+//	               writeModifySQLForATable: guard of the final ADD CONSTRAINT .. PRIMARY KEY (PkAlways / PkNonEmpty)
 func init() { register("DbTables", dbTables) }
 
 func coqStr(s string) string { return "\"" + strings.ReplaceAll(s, "\"", "\"\"") + "\"" }
@@ -317,5 +319,157 @@ func dbTables(repo string) (string, error) {
 	fmt.Fprintf(&b, "Definition pg_default : pgres := %s.\n", def)
 	fmt.Fprintf(&b, "Definition table_order : order_kind := %s.\n", orderKind(fns["GenerateDatabaseScriptCreate"], helpers))
 	fmt.Fprintf(&b, "Definition column_order : order_kind := %s.\n", orderKind(fns["writeCreateSQLForATable"], helpers))
+	rr, av := modifyColumnShape(fns["writeModifySQLForAColumn"])
+	fmt.Fprintf(&b, "Definition delta_cfg : dcfg := DCfg %s %s %s.\n", rr, pkAddGuard(fns["writeModifySQLForATable"]), av)
 	return b.String(), nil
+}
+
+// formats of the v.stringBuilder.WriteString(fmt.Sprintf(<format>, ...)) statements of a block, in order
+func writtenFormats(b *ast.BlockStmt) []string {
+	var out []string
+	for _, st := range b.List {
+		es, ok := st.(*ast.ExprStmt)
+		if !ok {
+			out = append(out, "?")
+			continue
+		}
+		c, ok := es.X.(*ast.CallExpr)
+		if !ok || len(c.Args) != 1 {
+			out = append(out, "?")
+			continue
+		}
+		ch := selChain(c.Fun)
+		if len(ch) == 0 || ch[len(ch)-1] != "WriteString" {
+			out = append(out, "?")
+			continue
+		}
+		sp, ok := c.Args[0].(*ast.CallExpr)
+		if !ok || strings.Join(selChain(sp.Fun), ".") != "fmt.Sprintf" || len(sp.Args) == 0 {
+			out = append(out, "?")
+			continue
+		}
+		// the format may be "lit" or "lit" + ident + "lit"
+		f := sp.Args[0]
+		for {
+			if be, ok := f.(*ast.BinaryExpr); ok {
+				f = be.X
+				continue
+			}
+			break
+		}
+		if bl, ok := f.(*ast.BasicLit); ok && bl.Kind == token.STRING {
+			s, _ := strconv.Unquote(bl.Value)
+			out = append(out, s)
+		} else {
+			out = append(out, "?")
+		}
+	}
+	return out
+}
+
+func exprText(e ast.Expr) string {
+	switch x := e.(type) {
+	case *ast.Ident:
+		return x.Name
+	case *ast.BasicLit:
+		return x.Value
+	case *ast.SelectorExpr:
+		return exprText(x.X) + "." + x.Sel.Name
+	case *ast.CallExpr:
+		var a []string
+		for _, y := range x.Args {
+			a = append(a, exprText(y))
+		}
+		return exprText(x.Fun) + "(" + strings.Join(a, ",") + ")"
+	case *ast.IndexExpr:
+		return exprText(x.X) + "[" + exprText(x.Index) + "]"
+	case *ast.BinaryExpr:
+		return "(" + exprText(x.X) + x.Op.String() + exprText(x.Y) + ")"
+	case *ast.ParenExpr:
+		return exprText(x.X)
+	case *ast.UnaryExpr:
+		return x.Op.String() + exprText(x.X)
+	}
+	return "?"
+}
+
+func modifyColumnShape(fd *ast.FuncDecl) (string, string) {
+	rr, av := "RefRefUnknown", "AutoVtUnknown"
+	if fd == nil || fd.Body == nil {
+		return rr, av
+	}
+	for _, st := range fd.Body.List {
+		ifs, ok := st.(*ast.IfStmt)
+		if !ok || exprText(ifs.Cond) != "(typeRefNew!=nil)" {
+			continue
+		}
+		// then-branch: datatype = ...; if typeRefOld == nil {...} [else if targets differ {...}]
+		for _, s2 := range ifs.Body.List {
+			in, ok := s2.(*ast.IfStmt)
+			if !ok || exprText(in.Cond) != "(typeRefOld==nil)" {
+				continue
+			}
+			switch e := in.Else.(type) {
+			case nil:
+				rr = "RefRefSilent"
+			case *ast.IfStmt:
+				want := "((typeRefOld.GetRef().Path[0]!=typeRefNew.GetRef().Path[0])||(typeRefOld.GetRef().Path[1]!=typeRefNew.GetRef().Path[1]))"
+				fm := writtenFormats(e.Body)
+				if exprText(e.Cond) == want && e.Else == nil && len(fm) == 3 &&
+					strings.HasPrefix(fm[0], "ALTER TABLE %s DROP CONSTRAINT %s;") &&
+					strings.HasPrefix(fm[1], "ALTER TABLE %s ALTER COLUMN %s TYPE %s;") &&
+					strings.HasPrefix(fm[2], "ALTER TABLE %s ADD CONSTRAINT ") {
+					rr = "RefRefRetarget"
+				}
+			}
+		}
+		// else-branch: does it end with `if isAutoIncrementNew { datatype = bigIntConst }`
+		if eb, ok := ifs.Else.(*ast.BlockStmt); ok && len(eb.List) > 0 {
+			av = "AutoVtPlain"
+			if last, ok := eb.List[len(eb.List)-1].(*ast.IfStmt); ok {
+				if exprText(last.Cond) == "isAutoIncrementNew" {
+					av = "AutoVtUnknown"
+					if len(last.Body.List) == 1 && last.Else == nil {
+						if as, ok := last.Body.List[0].(*ast.AssignStmt); ok && len(as.Lhs) == 1 && len(as.Rhs) == 1 &&
+							as.Tok == token.ASSIGN && isIdent(as.Lhs[0], "datatype") && isIdent(as.Rhs[0], "bigIntConst") {
+							av = "AutoVtBigint"
+						}
+					}
+				}
+			}
+		}
+	}
+	return rr, av
+}
+
+func pkAddGuard(fd *ast.FuncDecl) string {
+	if fd == nil || fd.Body == nil {
+		return "PkUnknown"
+	}
+	res := "PkUnknown"
+	for _, st := range fd.Body.List {
+		ifs, ok := st.(*ast.IfStmt)
+		if !ok || ifs.Else != nil {
+			continue
+		}
+		adds := false
+		ast.Inspect(ifs.Body, func(n ast.Node) bool {
+			if bl, ok := n.(*ast.BasicLit); ok && bl.Kind == token.STRING && strings.Contains(bl.Value, "ADD CONSTRAINT %s PRIMARY KEY") {
+				adds = true
+			}
+			return true
+		})
+		if !adds {
+			continue
+		}
+		switch exprText(ifs.Cond) {
+		case "primaryKeyChanged":
+			res = "PkAlways"
+		case "(primaryKeyChanged&&(len(primaryKeys)>0))":
+			res = "PkNonEmpty"
+		default:
+			res = "PkUnknown"
+		}
+	}
+	return res
 }
